@@ -237,31 +237,17 @@ func findRoute(
 			return "", log, false
 		}
 
-		// Remove selected backend from list to avoid retrying it
-		for i, backend := range tryBackends {
-			normalizedBackend, err := netutil.Parse(backend, src.RemoteAddr().Network())
-			if err != nil {
-				continue
-			}
-			normalizedAddr := normalizedBackend.String()
-			if _, port := netutil.HostPort(normalizedBackend); port == 0 {
-				normalizedAddr = net.JoinHostPort(normalizedBackend.String(), "25565")
-			}
-
-			normalizedSelected, err := netutil.Parse(backendAddr, src.RemoteAddr().Network())
-			if err != nil {
-				continue
-			}
-			selectedAddr := normalizedSelected.String()
-			if _, port := netutil.HostPort(normalizedSelected); port == 0 {
-				selectedAddr = net.JoinHostPort(normalizedSelected.String(), "25565")
-			}
-
-			if normalizedAddr == selectedAddr {
-				tryBackends = append(tryBackends[:i], tryBackends[i+1:]...)
-				break
+		// Remove the selected backend and every alias of it (same canonical address:
+		// lower-cased host, default port) so that no backend is dialed twice within one
+		// attempt. Addresses that fail to parse are compared verbatim and removed as well.
+		selected := canonicalBackendAddress(backendAddr)
+		remaining := tryBackends[:0]
+		for _, backend := range tryBackends {
+			if canonicalBackendAddress(backend) != selected {
+				remaining = append(remaining, backend)
 			}
 		}
+		tryBackends = remaining
 
 		return backendAddr, newLog.WithValues("backendAddr", backendAddr), true
 	}
